@@ -314,6 +314,26 @@ def gateway_api_scenarios(rich: bool) -> list[dict]:
     return out
 
 
+def other_dongle_scenarios(rich: bool) -> list[dict]:
+    """The gateway is stopped and started again on another dongle (every other connection reports another gateway id): an
+    impersonating caller (its notice carries the gateway's id in its header), a request and an echo-only write before and
+    after every change of dongle."""
+    out = []
+    for ops in ([(1.0, "gw_stop"), (2.0, "gw_start")],
+                [(1.0, "gw_stop"), (2.0, "gw_start"), (6.0, "gw_stop"), (7.0, "gw_start")],
+                [(1.0, "conn_lost"), (1.5, "gw_stop"), (2.0, "gw_start")]):
+        for kinds in (("IMP", "RQ"), ("RQ", "IMP"), ("IMP", "IMP")) + ((("W", "IMP"), ("I", "RQ")) if rich else ()):
+            callers, n = [], 0
+            for t0 in [0.2] + [t + 1.5 for t, ev in ops if ev == "gw_start"]:
+                for kind in kinds:
+                    n += 1
+                    callers.append(_gw_caller(n, round(t0 + 0.1 * (n % 2), 7), kind=kind, api="async", wfr=None))
+            events = [{"t": t, "ev": ev, "hops": 0} for t, ev in ops]
+            out.append({"via": "gateway", "mode": None, "ids": "alternate", "callers": callers, "events": events, "dead": [],
+                        "seq": "other-dongle:" + ",".join(ev for _, ev in ops)})
+    return out
+
+
 def lifecycle_from_behaviour(beh: list[tuple[str, dict]], silent: list[int]) -> dict | None:
     """A behaviour of spec/GwyLife.tla (TLC -simulate: [(action, state)]) as a gateway-level scenario: the application's
     and the environment's steps (AStartCall, AStopCall, ADied) become events - half a second after the previous one when
